@@ -10,7 +10,7 @@
    property names: well-formed graph, every named module exists, subjects and
    objects pairwise unrelated in the hierarchy, both lists non-empty. *)
 From Coq Require Import List Bool NArith.
-From PTA Require Import Names Graph Search Worklist Rule WRule SpecRule SpecLines NamesProofs SearchProofs RuleProofs GraphProofs WorklistProofs WRuleProofs AlgebraProofs AliasProofs.
+From PTA Require Import Names Graph Search Worklist Rule WRule SpecRule SpecLines NamesProofs SearchProofs RuleProofs GraphProofs WorklistProofs WRuleProofs AlgebraProofs AliasProofs Builder BuilderProofs.
 Import ListNotations.
 
 Theorem C01_verdict :
@@ -145,6 +145,20 @@ Theorem C01_loops_verdict :
 Proof. intros comp ceqb Hs rmatch g Hwf Hanc Hnh c. exact (w_assert_applies_refines ceqb Hs rmatch g Hwf Hanc Hnh c). Qed.
 Print Assumptions C01_loops_verdict.
 
+(* What a rule object states is what was written LAST: when a module list (are_named, are_sub_modules_of, have_name_matching,
+   have_name_containing) is followed at once by another one, the evaluation is that of the history without the first - whatever
+   the lists are, wherever in the history [h ... t] the two calls stand, and whatever was evaluated in between (the model's
+   evaluation does not change the builder state: C15_rule_object_unchanged).  The premise says that the first list was
+   accepted, i.e. that a side had been opened. *)
+Theorem C01_last_list_wins :
+  forall (comp : Type) (ceqb : comp -> comp -> bool) (rmatch : N -> list comp -> bool)
+         (g : @graph comp) (h : list (@rcall comp)) (c1 c2 : @rcall comp) (t : list (@rcall comp)),
+  is_modules_call c1 = true -> is_modules_call c2 = true ->
+  (exists st, rbuild rinit (h ++ [c1]) = Ok st) ->
+  run_rule ceqb rmatch g (h ++ c1 :: c2 :: t) = run_rule ceqb rmatch g (h ++ c2 :: t).
+Proof. intros comp ceqb rmatch. exact (last_list_wins ceqb rmatch). Qed.
+Print Assumptions C01_last_list_wins.
+
 (* ---- non-vacuity: a 7-module tree with 5 imports and a 2-subject / 2-object rule is strict ---- *)
 Open Scope N_scope.
 Definition ex_g : @graph N :=
@@ -181,3 +195,9 @@ Example C01_loop_example :
   w_other_in N.eqb ex_g [Named [1;2]] (Named [1;4]) = Some (Ok [([1;3], [1;4;5])]) /\
   w_submodules N.eqb ex_g [1;4] = Some [[1;4]; [1;4;6]; [1;4;5]].
 Proof. repeat split; vm_compute; reflexivity. Qed.
+
+(* the premise of C01_last_list_wins is met by an ordinary chain: modules_that().are_named(..).should().import_modules_that().are_named(..) *)
+Example C01_last_list_example :
+  exists st, rbuild rinit ([RModulesThat; RAreNamed [[1;2]]; RShould; RImport] ++ [RAreNamed [[1;3]]]) = Ok st /\
+  run_rule N.eqb (fun _ _ => false) ex_g ([RModulesThat; RAreNamed [[1;2]]; RShould; RImport] ++ [RAreNamed [[1;7]]; RAreNamed [[1;3]]]) = Pass.
+Proof. eexists. split; vm_compute; reflexivity. Qed.
